@@ -174,7 +174,9 @@ class Tokenizer:
         elif char in ascii_letters:
             self.identifier_or_label()
 
-        elif char in digits or char == "-" and self.peek() in digits:
+        elif char in digits or (
+            char == "-" and self.peek() is not None and self.peek() in digits
+        ):
             self.number()
 
         elif char in whitespace:
